@@ -393,39 +393,7 @@ func itoa(n int) string { return strconv.Itoa(n) }
 
 func c08Replies(c *Ctx, k *core) {
 	w := c.W
-	// verifyEnable.resp
-	found := false
-	for _, f := range w.funcsIn("") {
-		for _, i := range allInstrs(f) {
-			al, ok := i.(*ssa.Alloc)
-			if !ok {
-				continue
-			}
-			var fld string
-			switch litTypeName(al) {
-			case ".verifyEnable":
-				fld = "resp"
-			case ".valueUpdate":
-				fld = "installed"
-			default:
-				continue
-			}
-			v := litField(al, fld)
-			if v == nil {
-				continue
-			}
-			found = true
-			mc, ok := stripConv(v).(*ssa.MakeChan)
-			nn, isC := int64(0), false
-			if ok {
-				nn, isC = constInt(mc.Size)
-			}
-			c.check(ok && isC && nn >= 1, "reply-capacity", relName(f)+"#"+fld, al.Pos(), "reply channel has constant capacity >= 1", "reply channel has no room for the answer (the monitor can block on an abandoned caller)")
-		}
-	}
-	if !found {
-		c.bad("reply-capacity", "reply-channels", 0, "no reply channels found")
-	}
+	c08ReplyChannels(c)
 	// exactly one answer per enable request on every path of the monitor's control arm
 	isRespSend := func(i ssa.Instruction) bool {
 		s, ok := i.(*ssa.Send)
@@ -675,5 +643,44 @@ func c08ShutdownFirst(c *Ctx, k *core) {
 	}
 	if n == 0 {
 		c.bad("shutdown-checked-first", "cbch", 0, "no blocking send on the callback queue found in a select")
+	}
+}
+
+// c08ReplyChannels: every request that carries a reply channel (enable requests, blocking reports) makes that channel
+// itself, with room for the one answer (shared with C09: EnableVerification must return the verdict on *its* request).
+func c08ReplyChannels(c *Ctx) {
+	w := c.W
+	// verifyEnable.resp
+	found := false
+	for _, f := range w.funcsIn("") {
+		for _, i := range allInstrs(f) {
+			al, ok := i.(*ssa.Alloc)
+			if !ok {
+				continue
+			}
+			var fld string
+			switch litTypeName(al) {
+			case ".verifyEnable":
+				fld = "resp"
+			case ".valueUpdate":
+				fld = "installed"
+			default:
+				continue
+			}
+			v := litField(al, fld)
+			if v == nil {
+				continue
+			}
+			found = true
+			mc, ok := stripConv(v).(*ssa.MakeChan)
+			nn, isC := int64(0), false
+			if ok {
+				nn, isC = constInt(mc.Size)
+			}
+			c.check(ok && isC && nn >= 1, "reply-capacity", relName(f)+"#"+fld, al.Pos(), "reply channel is made for this very request with constant capacity >= 1", "reply channel is not a channel made for this request with room for the answer: a channel shared between requests hands an abandoned request's answer to the next caller, an unbuffered one lets the monitor block (reply channel has no room for the answer (the monitor can block on an abandoned caller)")
+		}
+	}
+	if !found {
+		c.bad("reply-capacity", "reply-channels", 0, "no reply channels found")
 	}
 }
